@@ -275,6 +275,7 @@ type c11State struct {
 	extra       []string
 	zeroTable   int
 	pendingZero map[*RefRow]int
+	midRound    string // first mid-round visibility problem seen by a callback
 }
 
 func (s *c11State) tags() []string {
@@ -323,6 +324,22 @@ type c11CB struct {
 }
 
 func (cb *c11CB) UpdateProperties(po tabular.PropertyOwner) error {
+	// at any moment a callback runs, every error raised so far on the table or an attached row is already on record
+	// (a later callback of the same round may look at the list, or fail hard)
+	if s := cb.s; s.midRound == "" && len(s.table) > 0 {
+		have := map[int]bool{}
+		for _, e := range s.b.T.Errors() {
+			if se, ok := e.(serialErr); ok {
+				have[se.serial] = true
+			}
+		}
+		for _, w := range s.table {
+			if !have[w] {
+				s.midRound = fmt.Sprintf("when callback %s was invoked, error E%d (raised earlier on the table or an attached row) was not in table.Errors() yet", cb.name, w)
+				break
+			}
+		}
+	}
 	if cb.direct {
 		switch o := po.(type) {
 		case *tabular.Row:
@@ -490,6 +507,11 @@ func (s *c11State) register(owner string, tg int, target string, wn int, when st
 func (s *c11State) check(when string) bool {
 	x, b := s.x, s.b
 	tags := append(s.tags(), "when:"+when)
+	x.Clause("C11.reported_once")
+	if s.midRound != "" {
+		x.Fail("C11.reported_once", append(tags, "lost", "not_yet_on_record_when_the_next_callback_ran"), "%s: %s; registrations %v", when, s.midRound, s.regDesc)
+		return false
+	}
 	var errs []error
 	if p, val, site := Safe(func() { errs = b.T.Errors() }); p {
 		x.FailSite("C11.no_panic", append(tags, "panic"), site, "table.Errors() panicked: %v", val)
